@@ -495,8 +495,24 @@ fn main() {
         }
     }
     let trace = verif::take();
-    let stf = kvs.verif_state();
-    writeln!(out, "FINAL {} {} {} {}", stf.seq_no, stf.mem_seq_no, stf.imm_trigger, stf.has_imm as u8).unwrap();
+    // the store's scalars, read with a deadline: a store whose mutex is held forever must not hang the harness
+    {
+        let k2 = Arc::clone(&kvs);
+        let cell = Arc::new(Mutex::new(None));
+        let c2 = Arc::clone(&cell);
+        std::thread::spawn(move || {
+            let st = k2.verif_state();
+            *c2.lock().unwrap() = Some((st.seq_no, st.mem_seq_no, st.imm_trigger, st.has_imm as u8));
+        });
+        let t0 = std::time::Instant::now();
+        while cell.lock().unwrap().is_none() && t0.elapsed() < Duration::from_secs(3) {
+            std::thread::sleep(Duration::from_millis(1));
+        }
+        match *cell.lock().unwrap() {
+            Some((a, b, c, d)) => writeln!(out, "FINAL {a} {b} {c} {d}").unwrap(),
+            None => writeln!(out, "CTL final state unavailable: the store mutex is held (timeout)").unwrap(),
+        }
+    }
     for e in trace.iter() {
         writeln!(out, "EV {} {} {} {} {}", e.tid, e.what, e.a, e.b, e.c).unwrap();
     }
